@@ -3,6 +3,7 @@
 (b) every single token-level edit (delete, duplicate, swap, insert one of 14 trouble tokens at every position) of seed sources;
 (c) structural extremes (nesting depth, line length, error count around 256, unterminated string / comment at every line end).
 Oracle: terminates, no signal / fault / internal-bug report, exit status non-zero exactly when an error was printed,
+every diagnostic line carries readable text,
 and an input that cannot be a program (unbalanced brackets, unterminated string) prints at least one error."""
 import os, re, sys, itertools, hashlib
 from vlib.common import Check, run, pmap, VERIF, NCPU
@@ -55,6 +56,24 @@ def mutants(src):
     return out
 
 
+MSGLINE = re.compile(r'\((?:Error|Fatal Error|Warning)\)([^\n]*)')
+
+
+def unreadable_message(t, data):
+    """a diagnostic whose text is empty or contains bytes that are neither printable ASCII nor present in the input"""
+    src = set(data)
+    for m in MSGLINE.finditer(t):
+        body = m.group(1)
+        if not re.search(r'[A-Za-z]', body):
+            return True
+        for ch in body:
+            o = ord(ch)
+            if (o < 32 and ch != '\t') or o >= 127:
+                if o not in src:
+                    return True
+    return False
+
+
 def surely_invalid(text):
     """text that cannot be a program: bracket counts differ outside strings/comments, or a string is left open"""
     t = re.sub(r'"(?:_.|[^"\n])*"', '""', text)
@@ -88,6 +107,8 @@ def main(tier):
             ms = [m for m in ms if m[0].startswith(('del@', 'swap@', 'ins(@', 'ins}@', 'ins"@'))]
         for lab, m in ms:
             inputs.append(('tseed%d:%s' % (si, lab), (progspace.PRELUDE + m).encode(), True, False))
+            # the same input with the detail part of messages switched off (label prefix nd: adds -Mno-details)
+            inputs.append(('nd:tseed%d:%s' % (si, lab), (progspace.PRELUDE + m).encode(), True, False))
     # every keyword and operator of the token table, alone and in pairs, at the start of a file, after a statement, at the
     # start of a line inside a #pile section and after an opening brace there, with and without a final newline
     kws = keyword_table(b.B + '/src/token.c') + ['x', '1', '1.5', '"s"']
@@ -120,7 +141,7 @@ def main(tier):
 
     def runone(label, data, typed, inv, d, timeout=20):
         write(d + '/t.as', data)
-        cmd = base + (lib if typed else []) + (['-Mno-emax'] if inv == 'emax' else []) + ['t.as']
+        cmd = base + (lib if typed else []) + (['-Mno-emax'] if inv == 'emax' else []) + (['-Mno-details'] if label.startswith('nd:') else []) + ['t.as']
         return cmd, run(cmd, cwd=d, timeout=timeout, merge=True, norand=False, mem_mb=4000)
 
     def work(ci):
@@ -155,6 +176,8 @@ def main(tier):
                 problem = (cls, det)
             elif (r.rc != 0) != printed:
                 problem = ('dishonest-exit', 'exit %s but %s error line printed' % (r.rc, 'an' if printed else 'no'))
+            elif unreadable_message(t, data):
+                problem = ('unreadable-message', 'an error line carries no text, or bytes that are neither printable nor taken from the input')
             elif inv is True and not printed:
                 problem = ('invalid-accepted', 'no diagnostic for an input that cannot be a program')
             elif inv == 'emax' and r.rc == 0:
@@ -172,18 +195,18 @@ def main(tier):
         if not done:
             ck.cut('input chunk not finished')
     ck.count(tot['n'])
-    sites = {}
-    for label, data, typed, (cls, det), tail in allbad:
+    # one gdb run per faulting input (in parallel): the key is the fault site of that very input, never a neighbour's
+    faulting = [(i, x) for i, x in enumerate(allbad) if x[3][0] in ('fault', 'signal', 'bug', 'assert', 'storage')]
+
+    def site_of(j):
+        i, (label, data, typed, (cls, det), tail) = j
+        d = mkdir('%s/site%d' % (ck.work, i))
+        write(d + '/t.as', data)
+        return i, faults.fault_site(base + (lib if typed else []) + (['-Mno-details'] if label.startswith('nd:') else []) + ['t.as'], d)
+    site_by = dict(pmap(site_of, faulting, n=NCPU))
+    for bi, (label, data, typed, (cls, det), tail) in enumerate(allbad):
         if cls in ('fault', 'signal', 'bug', 'assert', 'storage'):
-            d = mkdir('%s/site' % ck.work)
-            write(d + '/t.as', data)
-            h = hashlib.sha1(data).hexdigest()[:8]
-            key0 = (cls, det[:40])
-            if key0 not in sites or len(sites[key0]) < 3:
-                site = faults.fault_site(base + (lib if typed else []) + ['t.as'], d)
-                sites.setdefault(key0, []).append(site)
-            else:
-                site = sites[key0][0]
+            site = site_by[bi]
             key = 'site=%s,kind=%s' % (site, cls)
             if site.startswith('unknown') and cls == 'bug':
                 # reported through the message system, no stack to key on: key on the message text
